@@ -323,6 +323,11 @@ def generate(unit_dir, canary=False):
             if is_a:
                 out_lines.append(t + TAG)
                 line_info.append((item_id, True, relfile, None))
+                if canary and attrs["kind"] == "region" and has_requires and not first_body_brace_done and t.strip() == "{":
+                    # the wrapper's opening brace is an annotation line
+                    first_body_brace_done = True
+                    out_lines.append("    assert(false); // canary" + TAG)
+                    line_info.append((item_id, True, relfile, "canary"))
             else:
                 out_lines.append(t)
                 line_info.append((item_id, False, relfile, None))
